@@ -318,7 +318,7 @@ func (db *Database) SearchUniversal(query string, options SearchOptions) []Searc
 	results := db.collectResults(scores, pq, options)
 
 	// Sort preliminarily
-	sort.Slice(results, func(i, j int) bool { return results[i].Score > results[j].Score })
+	sort.SliceStable(results, func(i, j int) bool { return results[i].Score > results[j].Score })
 
 	// Apply all post-scoring boosts (NLP reranking, cascading, semantic)
 	results = db.applyPostScoringBoosts(results, pq, query, options)
@@ -481,7 +481,16 @@ func indexCommand(cmd *Command) (uniqueLens docLens, termFreqs map[string]fieldT
 
 func (db *Database) collectResults(scores map[int]float64, pq *nlp.ProcessedQuery, options SearchOptions) []SearchResult {
 	results := make([]SearchResult, 0, utils.Min(len(scores), options.Limit*3))
-	for docID, score := range scores {
+	// Visit the scored documents in command order, not in map order: together
+	// with the stable sorts below this makes the order of equal-scoring commands
+	// (and which of them survives the limit) the same on every run.
+	docIDs := make([]int, 0, len(scores))
+	for docID := range scores {
+		docIDs = append(docIDs, docID)
+	}
+	sort.Ints(docIDs)
+	for _, docID := range docIDs {
+		score := scores[docID]
 		cmd := &db.Commands[docID]
 
 		// Apply intent-based boost if NLP is active
@@ -527,7 +536,7 @@ func (db *Database) rerankWithNLP(results []SearchResult, query string, options 
 		}
 	}
 	// Resort after blending
-	sort.Slice(topK, func(i, j int) bool { return topK[i].Score > topK[j].Score })
+	sort.SliceStable(topK, func(i, j int) bool { return topK[i].Score > topK[j].Score })
 	return topK
 }
 
@@ -714,7 +723,7 @@ func (db *Database) applySemanticBoost(results []SearchResult, query string) []S
 	}
 
 	// Re-sort after applying semantic boost
-	sort.Slice(results, func(i, j int) bool {
+	sort.SliceStable(results, func(i, j int) bool {
 		return results[i].Score > results[j].Score
 	})
 
